@@ -257,6 +257,38 @@ class Ev:
         except Exception as e:
             raise Unknown('%s: %s' % (_txt(n), e))
 
+    def _comprehend(self, n):
+        """elements of a list comprehension / generator expression over finite evaluated iterables (pure table-building code)"""
+        out = []
+
+        def rec(i, env):
+            if i == len(n.generators):
+                out.append(Ev(env, self.subst, self.atoms, self.symbols, self.on_atom).ev(n.elt))
+                return
+            g = n.generators[i]
+            if g.is_async:
+                raise Unknown('async comprehension')
+            sub = Ev(env, self.subst, self.atoms, self.symbols, self.on_atom)
+            it = sub.ev(g.iter)
+            if isinstance(it, Sym) or not isinstance(it, (list, tuple, range, str, dict, set, frozenset)):
+                raise Unknown(_txt(g.iter))
+            if len(it) > 4096:
+                raise Unknown('comprehension over %d items' % len(it))
+            for item in it:
+                e2 = dict(env)
+                s2 = Ev(e2, self.subst, self.atoms, self.symbols, self.on_atom)
+                s2.bind(g.target, item)
+                if all(s2.truth(c) for c in g.ifs):
+                    rec(i + 1, e2)
+        rec(0, dict(self.env))
+        return out
+
+    def e_ListComp(self, n):
+        return self._comprehend(n)
+
+    def e_GeneratorExp(self, n):
+        return self._comprehend(n)
+
     def e_JoinedStr(self, n):
         out = ''
         for v in n.values:
